@@ -28,7 +28,120 @@ def r1(ctx, chk, rule="C03.1"):
     n = shared.rule_iterator_invalidation(ctx, chk, rule)
     chk.extra.setdefault("loops_examined", n)
     shared.rule_single_use_iterators(ctx, chk, rule)
+    _stale_positions(ctx, chk, rule)
     _canary_iter(ctx, chk)
+
+
+def _worklist_initial_state_flaw(f, wnode):
+    """A work list of states to clear that is fed at several sites: when one site excludes the initial state (`idx != 0`) and
+    another does not, the belief "state 0 is never cleared" is stated and then broken (a state that only the cleared ones point to
+    is put on the list by the cascade, the initial state among them)."""
+    if not (isinstance(wnode, ast.While) and isinstance(wnode.test, ast.Name)):
+        return None
+    W = wnode.test.id
+
+    def zero_test(tests, var):
+        for t in tests:
+            for c in ast.walk(t):
+                if isinstance(c, ast.Compare) and len(c.ops) == 1 and isinstance(c.ops[0], (ast.NotEq, ast.Gt, ast.Lt, ast.IsNot)):
+                    sides = [c.left, c.comparators[0]]
+                    if any(isinstance(x, ast.Constant) and x.value == 0 and not isinstance(x.value, bool) for x in sides) and \
+                            any(isinstance(x, ast.Name) and (var is None or x.id == var) for x in sides):
+                        return True
+        return False
+    sites = []
+    for n in walk_no_nested_defs(f.node):
+        if isinstance(n, ast.Assign) and len(n.targets) == 1 and isinstance(n.targets[0], ast.Name) and n.targets[0].id == W and isinstance(n.value, ast.ListComp) \
+                and len(n.value.generators) == 1 and isinstance(n.value.elt, ast.Name):
+            sites.append((n, zero_test(n.value.generators[0].ifs, n.value.elt.id)))
+        if isinstance(n, ast.Call) and isinstance(n.func, ast.Attribute) and n.func.attr == "append" and isinstance(n.func.value, ast.Name) and n.func.value.id == W \
+                and len(n.args) == 1 and isinstance(n.args[0], ast.Name):
+            tests = []
+            p_ = n
+            while p_ is not None and p_ is not f.node:
+                par = getattr(p_, "parent", None)
+                if isinstance(par, ast.If) and p_ is not par.test and p_ in par.body:
+                    tests.append(par.test)
+                p_ = par
+            sites.append((n, zero_test(tests, n.args[0].id)))
+    if len(sites) >= 2 and any(z for _, z in sites) and not all(z for _, z in sites):
+        bad = [n for n, z in sites if not z][0]
+        good = [n for n, z in sites if z][0]
+        return ("the work list `%s` of states to clear is fed at %d sites: `%s` excludes the initial state 0, `%s` (line %d) does not - an initial state that only cleared states "
+                "point back to loses all its transitions" % (W, len(sites), src(good)[:50].replace("\n", " "), src(bad)[:50], bad.lineno))
+    return None
+
+
+def _stale_positions(ctx, chk, rule):
+    """`dead = [i for i, t in enumerate(xs) if ...]; for i in dead: del xs[i]`: after the first deletion every later position is
+    off by one - the wrong transitions are removed (or an IndexError comes out of solve())."""
+    def list_expr(e):
+        return src(e) if isinstance(e, (ast.Name, ast.Attribute)) else None
+
+    def deleters(f):
+        """{param or None: list expression} for functions that delete `<list>[param]`; used for calls through a helper."""
+        out = {}
+        for n in walk_no_nested_defs(f.node):
+            tgt = None
+            if isinstance(n, ast.Delete) and len(n.targets) == 1 and isinstance(n.targets[0], ast.Subscript) and isinstance(n.targets[0].slice, ast.Name):
+                tgt = (n.targets[0].slice.id, list_expr(n.targets[0].value))
+            if isinstance(n, ast.Call) and isinstance(n.func, ast.Attribute) and n.func.attr == "pop" and len(n.args) == 1 and isinstance(n.args[0], ast.Name):
+                tgt = (n.args[0].id, list_expr(n.func.value))
+            if tgt and tgt[1]:
+                out[tgt[0]] = tgt[1]
+        return out
+    hits = n_loops = 0
+    for f in shared.solver_scope(ctx):
+        home = ctx.prog.funcs.get(f.qual)
+        if home is not None and home.node is not f.node:
+            continue
+        # position lists: name -> list expression they were collected on
+        pos_lists = {}
+        for n in walk_no_nested_defs(f.node):
+            if isinstance(n, ast.Assign) and len(n.targets) == 1 and isinstance(n.targets[0], ast.Name) and isinstance(n.value, ast.ListComp) and len(n.value.generators) == 1:
+                g = n.value.generators[0]
+                if isinstance(g.iter, ast.Call) and call_name(g.iter) == "enumerate" and g.iter.args and isinstance(g.target, ast.Tuple) and g.target.elts \
+                        and isinstance(g.target.elts[0], ast.Name) and isinstance(n.value.elt, ast.Name) and n.value.elt.id == g.target.elts[0].id and list_expr(g.iter.args[0]):
+                    pos_lists[n.targets[0].id] = list_expr(g.iter.args[0])
+        if not pos_lists:
+            continue
+        own = deleters(f)
+        for lp in walk_no_nested_defs(f.node):
+            if not (isinstance(lp, ast.For) and isinstance(lp.target, ast.Name) and isinstance(lp.iter, ast.Name) and lp.iter.id in pos_lists):
+                continue
+            n_loops += 1
+            xs = pos_lists[lp.iter.id]
+            var = lp.target.id
+            deleted = None
+            for n in ast.walk(lp):
+                if isinstance(n, ast.Delete) and len(n.targets) == 1 and isinstance(n.targets[0], ast.Subscript) and isinstance(n.targets[0].slice, ast.Name) \
+                        and n.targets[0].slice.id == var and list_expr(n.targets[0].value) == xs:
+                    deleted = n
+                if isinstance(n, ast.Call) and isinstance(n.func, ast.Attribute) and n.func.attr == "pop" and len(n.args) == 1 and isinstance(n.args[0], ast.Name) \
+                        and n.args[0].id == var and list_expr(n.func.value) == xs:
+                    deleted = n
+                if isinstance(n, ast.Call) and deleted is None:
+                    for g_ in ctx.cg.resolve(n, f):
+                        dg = deleters(g_)
+                        params = [p_ for p_ in g_.params if p_ != "self"]
+                        bound = {}
+                        for i_, a in enumerate(n.args):
+                            if i_ < len(params):
+                                bound[params[i_]] = a
+                        for k_ in n.keywords:
+                            if k_.arg:
+                                bound[k_.arg] = k_.value
+                        for prm, lst in dg.items():
+                            a = bound.get(prm)
+                            if isinstance(a, ast.Name) and a.id == var and lst.split(".")[-1] == xs.split(".")[-1]:
+                                deleted = n
+            if deleted is not None:
+                hits += 1
+                chk.violation(rule, f.where(lp), "the positions in `%s` were collected on `%s` as it was, and `%s` deletes by position while the list shrinks: from the second deletion on "
+                              "every position is off by one (a live transition is removed and a dead one kept, or an IndexError leaves solve())" % (lp.iter.id, xs, src(deleted)[:50]),
+                              expected="delete from the highest position down, or rebuild the list", found=norm_stmt(lp)[:100],
+                              construct="%s deletes by stale positions" % f.short)
+    return hits
 
 
 def _canary_iter(ctx, chk):
@@ -525,6 +638,11 @@ def r4_player_two(ctx, chk, rule="C03.4"):
         per_state = l.kind == "for" and (l.source == slist or (l.source[0] == "call" and l.source[1] == "enumerate" and l.source[2] and l.source[2][0] == slist))
         if not pointed and not per_state:
             # not the sweep over the state list: a work list of states found to be unreferenced (reference counts, ...) is another design
+            flaw = _worklist_initial_state_flaw(f, l.node)
+            if flaw:
+                chk.violation(rule, f.where(l.node), flaw, expected="the initial state is never cleared, wherever a state is put on the work list", found=norm_stmt(l.node)[:80],
+                              construct="prune_states work list admits the initial state")
+                continue
             chk.undecided(rule, f.where(l.node), "transitions are cleared inside `%s`, not in a sweep over the state list: why the cleared state is unreferenced is not traced" % norm_stmt(l.node)[:60])
             continue
         if not pointed:
@@ -659,6 +777,14 @@ def r5_dispatch(ctx, chk, rule="C03.5"):
             return
         if len(ps) == 1 and not others:
             players = ps[0]
+        # a further test on the state itself (final or not, its reward, its number): the states that fail it keep their dead branches
+        own_fields = [c for c in others if mentions(c, lambda x: x[0] == "attr" and x[1] == st and x[2] in ("is_final_node", "reward", "idx", "reach_probability", "expected_rewards"))
+                      and not mentions(c, lambda x: x[0] == "attr" and x[1] == st and x[2] == "next_states")]
+        if len(ps) == 1 and own_fields and len(own_fields) == len(others):
+            chk.violation(rule, f.where(L.node), "the pruning of dead branches is skipped for the Player-1 / probabilistic states with `%s`: such a state keeps its transitions into "
+                          "zero-probability states (and, for a probabilistic state, un-renormalised probabilities)" % show(simp(("not", own_fields[0])))[:120],
+                          expected="state.prune_paths(...) for every Player-1 / probabilistic state", found=show(cond)[:160], construct="Solver.prune_paths extra condition")
+            return
     if players is None:
         chk.undecided(rule, f.where(L.node), "dispatch condition `%s` not recognised" % show(cond))
     elif players != {"Player 1", "Probabilistic"}:
